@@ -12,3 +12,12 @@ for ff in ffmodel.FFS:
     out[ff] = {state: sorted(tab[state]) for state in sorted(tab) if state in set(ffmodel.universe())}
 json.dump(out, open("/verif/vf/data/golden_support.json", "w"), indent=0, sort_keys=True)
 print({ff: len(v) for ff, v in out.items()})
+
+# pinned naming map: (force field, state, canonical atom) -> native (residue, atom) names
+nat = {}
+uni = set(ffmodel.universe())
+for ff in ffmodel.FFS:
+    tab = ffmodel.builtin(ff)
+    nat[ff] = {state: {a: [v[2], v[3]] for a, v in sorted(tab[state].items())} for state in sorted(tab) if state in uni}
+json.dump(nat, open("/verif/vf/data/golden_native.json", "w"), indent=0, sort_keys=True)
+print({ff: sum(len(x) for x in v.values()) for ff, v in nat.items()})
